@@ -262,6 +262,9 @@ def check_groups(ix, case, out, tag):
                 if any(k in touched for k in keys):
                     continue  # a member was deleted/updated later: adjacency no longer promised for it
                 nums = [s.document_number(k=k) for k in keys]
+                if None in nums:
+                    out.fail("c06.group_member_missing", [tag, keys, nums])
+                    continue
                 if nums != list(range(nums[0], nums[0] + len(nums))):
                     out.fail("c06.group_not_adjacent", [tag, keys, nums])
         # parent/child query agrees with the model: parents of children containing 'a'
